@@ -1,14 +1,23 @@
 //! Component-level ops of the string->float algorithms (fast path, Eisel-Lemire, Bellerophon,
 //! power-of-two), compared with the Lean models of `lean/LexVerif/Model/{FastPath,Lemire,Bellerophon,Binary}.lean`.
 //!
-//! An `ExtendedFloat80` is printed as `ok <mant> <exp>` when `exp >= 0` (valid) and as
+//! An `ExtendedFloat80` is printed as `ok <bits> <mant> <exp>` when `exp >= 0` (valid; bits = `extended_to_float`, hex) and as
 //! `inv <mant> <exp>` when the exponent carries the `INVALID_FP` bias (`exp < 0`).
 #![allow(dead_code, unused_imports, unused_variables)]
 use lexical_parse_float::float::ExtendedFloat80;
 use lexical_parse_float::number::Number;
 
-fn fp_line(fp: ExtendedFloat80) -> String {
-    format!("{} {} {}", if fp.exp < 0 { "inv" } else { "ok" }, fp.mant, fp.exp)
+/// `ok <bits of extended_to_float(fp)> <mant> <exp>` | `inv <mant> <exp>`
+fn fp_line<F: lexical_util::num::Float>(fp: ExtendedFloat80) -> String
+where
+    F::Unsigned: core::fmt::LowerHex,
+{
+    if fp.exp < 0 {
+        format!("inv {} {}", fp.mant, fp.exp)
+    } else {
+        let f: F = lexical_parse_float::float::extended_to_float::<F>(fp);
+        format!("ok {:x} {} {}", f.to_bits(), fp.mant, fp.exp)
+    }
 }
 
 fn number<'a>(mant: &str, exp: &str, many: &str, neg: bool) -> Number<'a> {
@@ -31,8 +40,8 @@ pub fn op_cf(a: &[&str]) -> String {
         let w: u64 = a[2].parse().unwrap();
         let lossy = a[3] == "1";
         return match a[0] {
-            "f32" => fp_line(compute_float::<f32>(q, w, lossy)),
-            "f64" => fp_line(compute_float::<f64>(q, w, lossy)),
+            "f32" => fp_line::<f32>(compute_float::<f32>(q, w, lossy)),
+            "f64" => fp_line::<f64>(compute_float::<f64>(q, w, lossy)),
             _ => "badop".into(),
         };
     }
@@ -48,8 +57,8 @@ pub fn op_lm(a: &[&str]) -> String {
         let num = number(a[1], a[2], a[3], false);
         let lossy = a[4] == "1";
         return match a[0] {
-            "f32" => fp_line(lemire::<f32>(&num, lossy)),
-            "f64" => fp_line(lemire::<f64>(&num, lossy)),
+            "f32" => fp_line::<f32>(lemire::<f32>(&num, lossy)),
+            "f64" => fp_line::<f64>(lemire::<f64>(&num, lossy)),
             _ => "badop".into(),
         };
     }
@@ -73,8 +82,8 @@ pub fn op_alg<const F: u128>(a: &[&str]) -> String {
                 let num = number(a[2], a[3], a[4], false);
                 let lossy = a[5] == "1";
                 return match ty {
-                    "f32" => fp_line(bellerophon::<f32, F>(&num, lossy)),
-                    "f64" => fp_line(bellerophon::<f64, F>(&num, lossy)),
+                    "f32" => fp_line::<f32>(bellerophon::<f32, F>(&num, lossy)),
+                    "f64" => fp_line::<f64>(bellerophon::<f64, F>(&num, lossy)),
                     _ => "badop".into(),
                 };
             }
@@ -88,8 +97,8 @@ pub fn op_alg<const F: u128>(a: &[&str]) -> String {
                 let num = number(a[2], a[3], a[4], false);
                 let lossy = a[5] == "1";
                 return match ty {
-                    "f32" => fp_line(binary::<f32, F>(&num, lossy)),
-                    "f64" => fp_line(binary::<f64, F>(&num, lossy)),
+                    "f32" => fp_line::<f32>(binary::<f32, F>(&num, lossy)),
+                    "f64" => fp_line::<f64>(binary::<f64, F>(&num, lossy)),
                     _ => "badop".into(),
                 };
             }
@@ -111,8 +120,8 @@ pub fn op_alg<const F: u128>(a: &[&str]) -> String {
                     fraction: fraction.as_deref(),
                 };
                 return match ty {
-                    "f32" => fp_line(slow_binary::<f32, F>(num)),
-                    "f64" => fp_line(slow_binary::<f64, F>(num)),
+                    "f32" => fp_line::<f32>(slow_binary::<f32, F>(num)),
+                    "f64" => fp_line::<f64>(slow_binary::<f64, F>(num)),
                     _ => "badop".into(),
                 };
             }
